@@ -6,8 +6,8 @@ CONSTANTS
     Everys = {0, 1, 2, 3, 4, 5}
     Aligns = {FALSE, TRUE}
     Fills = {FALSE, TRUE}
-    MaxTime = 6
-    MaxPoints = 6
+    MaxTime = 5
+    MaxPoints = 5
     PurgeGuard = TRUE
 INVARIANTS
     CoverNotHit
